@@ -34,9 +34,10 @@ def entry_yaml(project):
 
 
 def analyse_python(job):
-    """child: one lian run + CPython oracle + judgement for one project"""
+    """child: one lian run + oracle (CPython, or node for the JavaScript rendering) + judgement for one project"""
     project = job["project"]
     tag = project["tag"]
+    lang = project.get("lang", "python")
     rec = callgraph.install_p3_recorder()
     sc = common.scratch()
     root = os.path.join(sc, f"c07_{tag}", f"src_{tag}")
@@ -44,11 +45,11 @@ def analyse_python(job):
     st = lianrun.write_settings(os.path.join(sc, f"c07_{tag}", "settings"), entry=entry_yaml(project))
     ws = os.path.join(sc, f"c07_{tag}", "ws")
     extra = ["-q"] + (["--enable-p2"] if job.get("enable_p2") else [])
-    app = lianrun.run_lian(lianrun.lian_argv("semantic", "python", [root], ws, st, extra))
+    app = lianrun.run_lian(lianrun.lian_argv("semantic", lang, [root], ws, st, extra))
     wsd = lianrun.ws_dir(ws)
     res = {"tag": tag, "fails": [], "harness": [], "events": 0, "dyn_calls": 0, "per_kind": {}, "frames": len(rec["frames"]),
            "wrapper_calls": rec["wrapper_calls"], "paths": 0, "entries": len(rec["entries"]), "files": len(project["files"]),
-           "mode": project["entry"]["mode"], "api_checks": 0, "skipped_not_entry": 0, "max_depth": 0, "recorder_errors": rec["errors"][:3],
+           "mode": project["entry"]["mode"], "lang": lang, "api_checks": 0, "skipped_not_entry": 0, "max_depth": 0, "recorder_errors": rec["errors"][:3],
            "shadowed": 0, "p2": bool(job.get("enable_p2"))}
     paths = callgraph.read_call_paths(wsd)
     if paths is None:
@@ -57,9 +58,9 @@ def analyse_python(job):
     res["paths"] = len(paths)
     gi = callgraph.GirIndex(wsd)
     # ---- oracle ------------------------------------------------------------------------------------
-    events, err = callgraph.python_call_events(root, project)
+    events, err = callgraph.python_call_events(root, project) if lang == "python" else callgraph.node_call_events(root, project)
     if err:
-        res["harness"].append(f"generated program did not run to completion under CPython: {err}")
+        res["harness"].append(f"generated program did not run to completion under {'CPython' if lang == 'python' else 'node'}: {err}")
     res["dyn_calls"] = sum(v["n"] for v in events.values())
     # ---- join ----------------------------------------------------------------------------------------
     unit_of = {}
@@ -124,6 +125,8 @@ def analyse_python(job):
         under_try = bool(info["stacks"]) and all(any((fl[0], fl[1]) in try_sites for fl in st) for st in info["stacks"])
         caller_cls = def_of[callerk]["cls"] if callerk[1] != "<module>" else None
         kind = gen_calls.event_kind(project, site, d["qual"], sorted(info["recv"]), under_try, caller_cls)
+        if lang != "python":
+            kind = f"{lang}/{kind}"
         if job.get("enable_p2"):
             # with --enable-p2 object instantiation behaves differently as a whole: constructor calls and calls on objects of
             # classes without constructor are each one mechanism there
@@ -137,6 +140,13 @@ def analyse_python(job):
         rows = gi.call_rows(u, line) if u is not None else []
         if len(rows) > 1 and site["kind"] == "super-init-call":
             rows = [r_ for r_ in rows if r_["operation"] == "object_call_stmt" and r_.get("field") == "__init__"]
+        if len(rows) > 1 and lang == "javascript":
+            # `var o = new K(..)` may be lowered to a new_object row plus helper rows: the statement that carries the call is the
+            # one that defines the variable written on that line
+            tgt = project["files"][callerk[0]].splitlines()[line - 1].strip().split("=")[0].replace("var", "").strip()
+            named = [r_ for r_ in rows if r_.get("target") == tgt]
+            if len(named) == 1:
+                rows = named
         if e is None or m is None or f is None or len(rows) != 1:
             res["harness"].append(f"join failed for {callerk[0]}:{line} ({kind}): entry={e} caller={m} callee={f} call rows on line={len(rows)}")
             continue
@@ -246,9 +256,9 @@ def analyse_python(job):
         seen_sig.add(sig)
         e, m, s, f = v["ids"]
         desc = (f"{callerk[0]}:{line} `{project['files'][callerk[0]].splitlines()[line - 1].strip()}` in "
-                f"{'module top level' if callerk[1] == '<module>' else def_of[callerk]['qual']} called {v['qual']} {v['n']}x under CPython "
+                f"{'module top level' if callerk[1] == '<module>' else def_of[callerk]['qual']} called {v['qual']} {v['n']}x under {'CPython' if lang == 'python' else 'node'} "
                 f"(entry {project['entry']['name']}; ids entry={e} caller={m} stmt={s} callee={f}): {v['detail']}")
-        res["fails"].append((sig, desc, {"lang": "python", "project": project, "enable_p2": bool(job.get("enable_p2")),
+        res["fails"].append((sig, desc, {"lang": lang, "project": project, "enable_p2": bool(job.get("enable_p2")),
                                          "event": {"file": callerk[0], "line": line, "callee": v["qual"], "kind": kind}}))
     return res
 
@@ -269,7 +279,8 @@ def main():
     lianrun.prepare_zygote(warm=False)
     chk = common.Check(PROP, rule=(
         "generated Python projects (1-4 files, optional package directory, entry = unit initialiser or a configured function), one "
-        "call per line, each run by CPython under sys.setprofile; distinct_nontrivial = distinct (project, call line, callee) "
+        "call per line, each run by CPython under sys.setprofile, plus the same generator rendered as single-file JavaScript with "
+        "node as the oracle; distinct_nontrivial = distinct (project, call line, callee) "
         "call events between generated functions whose (entry, caller, call statement, callee) was looked up in the stored call "
         "paths, the loader API and the recorded P3 frames"))
     thorough = chk.tier == "thorough"
@@ -288,6 +299,9 @@ def main():
             p2 = (i % 10 == 9)        # every tenth project is a single-file one analysed with --enable-p2
             proj = gen_calls.generate(base + i, f"s{chk.seed}p{i}", **({"n_files": 1} if p2 else {}))
             jobs.append({"project": proj, "enable_p2": p2})
+        # the same generator rendered as single-file JavaScript, node as the oracle
+        for i in range(36 if not thorough else 500):
+            jobs.append({"project": gen_calls.generate_js(base + 100000 + i, f"s{chk.seed}j{i}"), "enable_p2": False})
     kinds_ok = {}
     n_sample = 0
     for r in forkpool.run_jobs(analyse_python, jobs, timeout=300 if not thorough else 900, tag="c07"):
@@ -314,6 +328,8 @@ def main():
         chk.count("failing events derived from an already reported failure (caller never analysed / value from a failed call; not reported again)", v["shadowed"])
         chk.count(f"projects with {min(v['files'], 3)}{'+' if v['files'] >= 3 else ''} file(s)", 1)
         chk.count(f"projects with entry mode {v['mode']}", 1)
+        chk.count(f"{v['lang']} projects", 1)
+        chk.count(f"{v['lang']}: call events judged", v["events"])
         if v["files"] > 1:
             chk.count("multi-file projects", 1)
         if v["p2"]:
@@ -349,10 +365,13 @@ def main():
         chk.require("projects with entry mode method", 20 if not thorough else 400)
         chk.require("projects with entry mode unit_init", 40 if not thorough else 800)
         chk.require("loader get_callees/get_callers cross-checks", 300)
+        chk.require("python: call events judged", 1200 if not thorough else 25000)
+        chk.require("javascript: call events judged", 300 if not thorough else 5000)
     else:
         chk.nontrivial_case("replay-a"); chk.nontrivial_case("replay-b")
     chk.assumptions += [
-        "CPython's sys.setprofile call events are the ground truth for 'an execution calls F from call site S of M'",
+        "CPython's sys.setprofile call events (node with entry/call-line instrumentation of a never-analysed copy for JavaScript) are "
+        "the ground truth for 'an execution calls F from call site S of M'",
         "class instantiation K(..) counts as a call of the __init__ that runs (own or inherited); classes without __init__ give no demand",
         "'F is analysed under that call site' = a P3 frame (caller M, call statement S, method F) under the same entry was handed to "
         "analyze_stmts, had statement states computed, and reached generate_and_save_analysis_summary",
